@@ -514,5 +514,71 @@ theorem runEdge_nonadjacent (c : Config α) (source tgt : Nat) (sched : List Nat
             cases ha
             exact ⟨res, inner, last, hres, hinner, hlast, htrees, by rw [hiters], rfl⟩
 
+/-- **shape, destination given, adjacent edges** (`e1.dst = e2.src`): no search; the two edges are
+traversed for real with `forward_traversal` (whatever the direction), the destination edge with the
+origin edge as its previous edge and from the origin edge's result state -/
+theorem runEdge_adjacent (c : Config α) (source tgt : Nat) (sched : List Nat)
+    (r : AlgResult α) (e1 e2 : EdgeRec α) (h1 : c.edges[source]? = some e1)
+    (h2 : c.edges[tgt]? = some e2) (hne : source ≠ tgt) (hadj' : e1.dst = e2.src)
+    (h : c.runEdge source (some tgt) sched = .ok r) :
+    ∃ ac1 tc1 st1 ac2 tc2 st2,
+      edgeTraversal { c with reverse := false } source none (initialState c.feats)
+        = .ok (ac1, tc1, st1) ∧
+      edgeTraversal { c with reverse := false } tgt (some source) st1 = .ok (ac2, tc2, st2) ∧
+      r.routes = [[{ terminal := e1.src, edge := source, access := ac1, traversal := tc1, state := st1 },
+                   { terminal := e2.src, edge := tgt, access := ac2, traversal := tc2, state := st2 }]] ∧
+      r.trees = [upd (upd (fun _ => none) e2.dst
+                    { terminal := e2.src, edge := tgt, access := ac2, traversal := tc2, state := st2 })
+                  e1.dst
+                    { terminal := e1.src, edge := source, access := ac1, traversal := tc1, state := st1 }] ∧
+      r.iterations = 1 := by
+  unfold Config.runEdge at h
+  simp only [h1, h2, if_neg hne, if_pos hadj'] at h
+  split at h
+  · cases h
+  · rename_i ac1 tc1 st1 ht1
+    split at h
+    · cases h
+    · rename_i ac2 tc2 st2 ht2
+      cases h
+      exact ⟨ac1, tc1, st1, ac2, tc2, st2, ht1, ht2, rfl, rfl, rfl⟩
+
+/-- **shape, no destination**: the wrapper runs the destination-less vertex-oriented search from
+the origin edge's head and inserts the origin element under that vertex unless it has an entry
+(it never has: see `runEdge_none_tree`); there is no route -/
+theorem runEdge_none (c : Config α) (source : Nat) (sched : List Nat) (r : AlgResult α)
+    (e1 : EdgeRec α) (h1 : c.edges[source]? = some e1)
+    (h : c.runEdge source none sched = .ok r) :
+    ∃ res, runVertexOriented c.inst e1.dst none sched = .ok res ∧ res.route = none ∧
+      r.routes = [] ∧ r.iterations = res.final.iters + 1 ∧
+      r.trees = [match res.final.sol e1.dst with
+                 | some _ => res.final.sol
+                 | none => upd res.final.sol e1.dst (originBranch c source e1)] := by
+  unfold Config.runEdge at h
+  simp only [h1] at h
+  split at h
+  · cases h
+  · rename_i r' hr'
+    obtain ⟨res, hres, htrees, hroutes, hiters⟩ := runVertex_ok hr'
+    have hnone := (runVertexOriented_none hres).2
+    rw [hnone] at hroutes
+    cases h
+    refine ⟨res, hres, hnone, ?_, by rw [hiters], ?_⟩
+    · rw [hroutes]; rfl
+    · rw [htrees]; rfl
+
+/-- the wrapper fails with `network` exactly on an origin edge id that is not in the edge list -/
+theorem runEdge_bad_origin (c : Config α) (source : Nat) (target : Option Nat) (sched : List Nat)
+    (h1 : c.edges[source]? = none) : c.runEdge source target sched = .error .network := by
+  unfold Config.runEdge
+  simp only [h1]
+
+/-- origin = destination: the empty result -/
+theorem runEdge_same (c : Config α) (source : Nat) (sched : List Nat) (e1 : EdgeRec α)
+    (h1 : c.edges[source]? = some e1) :
+    c.runEdge source (some source) sched = .ok { trees := [], routes := [], iterations := 0 } := by
+  unfold Config.runEdge
+  simp only [h1, if_true]
+
 end SearchRoute
 end Compass
